@@ -84,5 +84,15 @@ CLAIMS['C10'] = dict(
          'decided deductively (bounded native sweep with an independent radiation integral only).',
     note='clause-only claim; slice executed at array shape 1x1 (elementwise statements); log/sqrt uninterpreted with axioms; floats as reals',
     design_ref='DESIGN.md §5 C10')
+CLAIMS['C13'] = dict(
+    category='other',
+    text='Proof (unbounded segment counts) for: Segment.__init__, Wire.compute_equal_segments (exactly n equal positive segments '
+         'chaining from end 1 to end 2, loop invariant), Curve.compute_segments (one segment per pair of consecutive points, min_seglen a '
+         'lower bound of all), Arc.__init__ (n+1 points on the circle at uniform angles, validation), Rotation_Matrix (orthogonal, det 1, '
+         '= Rz*Ry*Rx), Wire.rotate/scale/translate (scale includes the radius), Geo_Container.rotate/scale/translate (tagged object or '
+         'every object exactly once, bookkeeping for the writer). BOUNDED stand-in, never counted as proved: taper1/taper2 growth, '
+         'limits and mirror; helix points; transformation order through main().',
+    note='level "other" because part of the property (tapers, helix) is bounded only; trig/sqrt axioms; floats as reals',
+    design_ref='DESIGN.md §5 C13')
 for _p in CLAIMS:
     NOT_APPLICABLE.pop(_p, None)
